@@ -247,3 +247,122 @@ def targets_blocked(tier):
     return [Target("robust.daemon.blocked_update_restores_state", "mypy.server.update:update_module_isolated", setup_blocked, start_at="orig_module = module",
                    ensures=[("graph-and-modules-restored-after-a-blocked-update", ens_blocked)], raises=(), overrides=ov, field_types={},
                    note="region from the snapshot of the old state to the BlockedUpdate return; load_graph by contract (one generic module brought in, then a blocker)")]
+
+
+# ---- 'the semantic-analysis fix-point ends': a deferral may claim progress only when something changed.
+# NamedTupleAnalyzer.build_namedtuple_typeinfo re-creates the tuple type on every iteration; with a
+# placeholder still inside it defers, and force_progress must be `the new tuple type differs (by value) from
+# the one recorded last time` -- an identity test is always true for the fresh object and keeps the fix-point
+# running until the iteration cap (INTERNAL ERROR).
+
+import mypy.types as T_
+import mypy.semanal_namedtuple as SNT
+
+TEQ = z3.Function("tuple_types_equal", IntS, IntS, BoolS)
+
+
+class FakeApiN:
+    def process_placeholder(self, *a, **k):
+        raise NotImplementedError
+
+
+def setup_progress(I):
+    import mypy.nodes as N_
+
+    self = I.make(TObj(SNT.NamedTupleAnalyzer), "self")
+    self.cands = [SNT.NamedTupleAnalyzer]
+    api = I.new_object(FakeApiN)
+    self.fields["api"] = api
+    info = I.new_object(N_.TypeInfo)
+    old = I.make(TOpt(TObj(T_.TupleType)), "recorded_tuple_type")
+    if isinstance(old, SObj):
+        old.cands = [T_.TupleType]
+    info.fields["tuple_type"] = old
+    return {"args": [], "locals": {"self": self, "info": info, "types": SOpaque("types"), "fallback": SOpaque("fallback"), "line": I.make(TInt(), "line"),
+                                   "items": SList([]), "name": I.make(TStr(), "name")}, "old": old}
+
+
+def tuple_eq(I, args, kwargs):
+    a, b = args[0], args[1]
+    if isinstance(a, SObj) and isinstance(b, SObj):
+        I.ctx.assume(TEQ(a.addr, a.addr))
+        return SBool(TEQ(a.addr, b.addr))
+    return SBool(z3.BoolVal(False))
+
+
+def ens_progress(I, env, res):
+    ev = [e for e in I.ctx.events if e[0] == "process_placeholder"]
+    if not ev:
+        return z3.BoolVal(True)
+    fp = ev[0][1].get("force_progress")
+    new = I.ctx.ghost.get("new_tuple")
+    if fp is None or new is None:
+        return z3.BoolVal(False)
+    old = env["old"]
+    differs = z3.Not(TEQ(new.addr, old.addr)) if isinstance(old, SObj) else z3.BoolVal(True)
+    return I.truth(fp) == differs
+
+
+def targets_progress(tier):
+    def mk_tuple(I, a, k):
+        o = I.new_object(T_.TupleType)
+        I.ctx.ghost["new_tuple"] = o
+        return o
+
+    ov = {"mypy.types:TupleType": mk_tuple, "mypy.semanal_namedtuple:has_placeholder": returns(TBool(), "has_placeholder"), "mypy.semanal_shared:has_placeholder": returns(TBool(), "has_placeholder"),
+          "contracts.robust:FakeApiN.process_placeholder": lambda I, a, k: (I.ctx.events.append(("process_placeholder", dict(k))), NONE)[1],
+          "mypy.types:TupleType.__eq__": tuple_eq}
+    return [Target("robust.namedtuple.progress_only_when_changed", "mypy.semanal_namedtuple:NamedTupleAnalyzer.build_namedtuple_typeinfo", setup_progress,
+                   start_at="tuple_base = TupleType(types, fallback)", cut_at="info.update_tuple_type(tuple_base)",
+                   ensures=[("deferral-claims-progress-iff-the-tuple-type-changed", ens_progress)], raises=(), overrides=ov, field_types={},
+                   note="region around the deferral; TupleType equality is an uninterpreted reflexive relation")]
+
+
+# ---- termination of the checker's deferral loop: a node is deferred only while passes are left.  The driver
+# (State.type_check_second_pass / process_stale_scc) runs another pass whenever deferred nodes exist and the
+# pass counter is bounded by last_pass only through this rule: every call of defer_node is governed by a test
+# `pass_num < last_pass`.  A deferral outside such a test re-queues the node on the last pass too and the loop
+# never ends.
+
+
+def check_deferral_budget():
+    import ast
+    import os
+
+    repo = os.environ.get("VERIF_REPO", "/repo")
+    obs, sites = [], 0
+    for rel in ("mypy/checker.py", "mypy/checkexpr.py", "mypy/checkmember.py", "mypy/checkpattern.py"):
+        p = os.path.join(repo, rel)
+        if not os.path.exists(p):
+            continue
+        tree = ast.parse(open(p).read())
+        parents = {}
+        for n in ast.walk(tree):
+            for c in ast.iter_child_nodes(n):
+                parents[c] = n
+        for n in ast.walk(tree):
+            if isinstance(n, ast.Call) and isinstance(n.func, ast.Attribute) and n.func.attr == "defer_node":
+                sites += 1
+                cur, governed, fn = n, False, "?"
+                while cur in parents:
+                    par = parents[cur]
+                    if isinstance(par, ast.If) and any(cur is b or any(x is cur for x in ast.walk(b)) for b in par.body):
+                        t = ast.unparse(par.test).replace(" ", "")
+                        if "pass_num<self.last_pass" in t or "pass_num<self.chk.last_pass" in t or "pass_num<chk.last_pass" in t:
+                            governed = True
+                    if isinstance(par, (ast.FunctionDef, ast.AsyncFunctionDef)):
+                        fn = par.name
+                        break
+                    cur = par
+                obs.append({"name": f"deferral/only-while-passes-are-left/{fn}:{n.lineno}", "status": "discharged" if governed else "refuted", "where": f"{rel}:{n.lineno} in {fn}",
+                            "detail": "" if governed else "defer_node is called outside any `pass_num < last_pass` test: the node is re-queued on the last pass as well and the deferral loop does not terminate",
+                            "key": f"deferral:{fn}", "confirmed": True})
+    if sites < 2:
+        return [{"name": "deferral/call-sites-located", "status": "unknown", "where": f"{sites} defer_node call sites found"}]
+    return obs
+
+
+def targets_deferral(tier):
+    from pyvc.runner import StaticCheck
+
+    return [StaticCheck("robust.deferral_only_while_passes_are_left", check_deferral_budget, note="every defer_node call site is governed by a `pass_num < last_pass` test (source-level frame)")]
